@@ -22,7 +22,7 @@ EXPLANATION = (
     'defaults go through apply; (e) Enum extension validates every value '
     'against the base, Schema compatibility requires equal key sets.  The '
     'containment between acceptance sets itself is not decided.')
-FLOORS = {'C04.a': 9, 'C04.b': 6, 'C04.c': 6, 'C04.d': 1, 'C04.e': 2}
+FLOORS = {'C04.a': 9, 'C04.b': 6, 'C04.c': 6, 'C04.d': 1, 'C04.e': 2, 'C04.f': 4}
 FILES = ['pyglove/core/typing/value_specs.py', 'pyglove/core/typing/class_schema.py',
          'pyglove/core/typing/key_specs.py', 'pyglove/core/typing/type_conversion.py']
 VS = 'pyglove.core.typing.value_specs.'
@@ -424,6 +424,51 @@ def rule_e(ctx):
          '; '.join(problems))
 
 
+OPTIONAL_BOUNDS = ('min_value', 'max_value', 'max_size', '_min_value', '_max_value', '_max_size')
+BOUND_FILES = ('pyglove/core/typing/value_specs.py', 'pyglove/core/typing/key_specs.py',
+               'pyglove/core/typing/class_schema.py', 'pyglove/core/geno/numerical.py',
+               'pyglove/core/geno/base.py', 'pyglove/core/hyper/numerical.py',
+               'pyglove/core/symbolic/list.py')
+
+
+def rule_f(ctx):
+  """0 (and 0.0) is a bound: whether an optional bound is present is decided
+  with `is None` / `is not None`, never by its truth value."""
+  idx = ctx.index
+  ctx.consult(*BOUND_FILES)
+  n = 0
+  for rel in BOUND_FILES:
+    m = idx.by_relpath.get(rel)
+    if m is None:
+      continue
+    for f in m.funcs.values():
+      g = C.cfg_of(f.node)
+      none_tests, truthy = [], []
+      for k in g.nodes:
+        if k.kind != 'test':
+          continue
+        t = k.ast
+        # after short-circuit desugaring a truthiness test is a bare name / attribute
+        if isinstance(t, ast.Attribute) and t.attr in OPTIONAL_BOUNDS:
+          truthy.append(k)
+        elif isinstance(t, ast.Name) and t.id in OPTIONAL_BOUNDS:
+          truthy.append(k)
+        elif isinstance(t, ast.Compare) and len(t.ops) == 1 and isinstance(t.ops[0], (ast.Is, ast.IsNot)) \
+            and isinstance(t.comparators[0], ast.Constant) and t.comparators[0].value is None:
+          l = t.left
+          if (isinstance(l, ast.Attribute) and l.attr in OPTIONAL_BOUNDS) or (isinstance(l, ast.Name) and l.id in OPTIONAL_BOUNDS):
+            none_tests.append(k)
+      if not none_tests and not truthy:
+        continue
+      n += 1
+      ctx.ob('C04.f', f.fq, not truthy,
+             'the presence of an optional bound is tested with `is None` / `is not None` (0 is a bound)',
+             f.loc, 'bound tested by truth value: ' + ', '.join(
+                 f'`{A.unparse(k.ast)}` (line {k.lineno})' for k in truthy) +
+             ': a bound of 0 is treated as "no bound"')
+  return n
+
+
 def run(ctx):
   ctx.consult(*FILES)
   rule_a(ctx)
@@ -431,5 +476,6 @@ def run(ctx):
   rule_c(ctx)
   rule_d(ctx)
   rule_e(ctx)
+  rule_f(ctx)
   ctx.assume('Callable/Functor compatibility is outside the property\'s quantifier')
   ctx.assume('user transforms cannot be compared and are ignored')
